@@ -15,8 +15,8 @@ HERE = os.path.dirname(os.path.abspath(__file__))
 HARNESS = os.path.dirname(HERE)
 ROOT = os.path.dirname(HARNESS)
 REPLAYS = os.path.join(ROOT, "replays")
-TARGETS = {"C02": ["hist"], "C10": ["histdiff"], "C09": ["hex"], "C12": ["cubeops"], "C14": ["sopexpr"], "C16": ["sopdisplay"]}
-RUNS = {"hist": 1_500_000, "histdiff": 1_000_000, "hex": 4_000_000, "cubeops": 3_000_000, "sopexpr": 1_000_000, "sopdisplay": 1_000_000}
+TARGETS = {"C02": ["hist"], "C03": ["transforms"], "C04": ["canon"], "C05": ["witness"], "C06": ["decomp"], "C07": ["bdd"], "C10": ["histdiff"], "C09": ["hex"], "C12": ["cubeops"], "C14": ["sopexpr"], "C16": ["sopdisplay"]}
+RUNS = {"transforms": 1_500_000, "canon": 600_000, "witness": 600_000, "decomp": 2_000_000, "bdd": 1_500_000, "hist": 1_500_000, "histdiff": 1_000_000, "hex": 4_000_000, "cubeops": 3_000_000, "sopexpr": 1_000_000, "sopdisplay": 1_000_000}
 PROCS = 8
 ENV = dict(os.environ, CARGO_NET_OFFLINE="true")
 
